@@ -221,6 +221,9 @@ pub fn serve(f: impl Fn(&str, &str, &[&str]) -> Option<String>) {
             Ok(None) => writeln!(out, "bad-op").unwrap(),
             Err(_) => writeln!(out, "P").unwrap(),
         }
+        // flush per answer: when a request never returns (a non-terminating loop in the crate), check.py's timeout
+        // finds the request by counting the answers received so far
+        out.flush().unwrap();
     }
     out.flush().unwrap();
 }
